@@ -961,6 +961,10 @@ def compare_var(p, s, var, val, rep, fail, st, strict):
     if want is None:
         return
     st["vars_compared"] += 1
+    if want[1] in ("int", "string") and len(want[0].encode()) > 10000:
+        if not want[0].isascii():
+            return
+        want = (want[0][:10000] + "...(truncated)", want[1])      # Variable::truncate_string, MAX_STR_LEN = 10000
     got = (vars_[var][1], vars_[var][2])
     if got != want:
         key = "vars:captured-cell-shown" if "captured" in got[1].lower() or "captured" in got[0].lower() else "vars:wrong-value"
